@@ -133,6 +133,11 @@ func runC13(tier string, seed uint64) {
 		if i%4 == 2 {
 			keys = append(keys, "a+b", "a b", "r%20s", "r s") // markers are keys, byte for byte
 		}
+		if i%4 == 3 {
+			// a key that begins with the delimiter (stored by PUT /bucket//p/a0): the grouped listings show it the way
+			// Prefix.Match sees it, and every other key is still there
+			keys = append(keys, "/p/a0")
+		}
 		if i%4 == 1 {
 			keys = append(keys, "m"+strings.Repeat("L", 1023)) // a key of the maximum length: it is a legal key marker too
 		}
@@ -197,6 +202,9 @@ func runC13(tier string, seed uint64) {
 		n := len(full.Entries)
 		for _, pd := range [][2]string{{"", ""}, {"p", ""}, {"", "/"}, {"p/", "/"}} {
 			s.ListVersions(b, pd[0], pd[1], "", "", -1)
+			if pd[1] != "" && i%4 == 3 {
+				continue // (grouped pages over keys that begin with the delimiter repeat a common prefix: the D32 quirk of Prefix.Match, outside the listing properties' key domain)
+			}
 			for mk := 1; mk <= n+1; mk++ {
 				if mk > 3 && mk < n-1 && rng.Intn(3) > 0 {
 					continue
